@@ -7,6 +7,7 @@ From BV Require Import Proofs.PoolRefuted.
 From BV Require Gen.G_pool_shape.
 From BV Require Lib.PyVal Gen.K_worker Model.Worker Proofs.WorkerProofs.
 From BV Require Gen.G_pool_pins.
+From BV Require Model.Pool Model.LaxSem Proofs.PoolTick Model.PoolCrash Proofs.PoolCrashProofs.
 Import ListNotations.
 Open Scope Z_scope.
 
@@ -129,3 +130,14 @@ Proof. vm_compute. reflexivity. Qed.
 Theorem C09_modelled_code_is_the_validated_text : G_pool_pins.modelled_code_of_C09 = true.
 Proof. reflexivity. Qed.
 Print Assumptions C09_modelled_code_is_the_validated_text.
+
+(* ---- the closed system with crashes (Model/PoolCrash.v): whatever the schedule of kills, passes and
+   results (passes after the dead worker's messages were drained), the worker list is at the configured
+   size in every reachable state, and at every complete end every listed worker is alive *)
+Theorem C09_crash_pool_size_kept : forall c n,
+    1 <= Pool.c_n c -> Pool.c_maxr c = None -> forall y, PoolCrashProofs.creach c n y ->
+    Z.of_nat (length (Pool.wlist (PoolCrash.cpar y))) = Pool.nprocs (PoolCrash.cpar y)
+    /\ map fst (PoolCrash.cwk y) = PoolTick.kept (PoolCrash.cpar y)
+    /\ (length (PoolCrash.cwk y) + length (PoolCrash.unreaped y))%nat = length (Pool.wlist (PoolCrash.cpar y)).
+Proof. exact PoolCrashProofs.pool_size_kept. Qed.
+Print Assumptions C09_crash_pool_size_kept.
